@@ -167,6 +167,11 @@ func genBlockID(t *rapid.T, label string, complete bool) types.BlockID {
 	}
 	id := types.BlockID{Hash: genHash(t, label+".hash", true)}
 	id.PartsHeader.Total = genU32(t, label+".total")
+	if label == "p.id" && id.PartsHeader.Total > types.MaxBlockPartsCount {
+		// a node only logs proposals that passed Proposal.ValidateBasic, which refuses part-set totals above
+		// MaxBlockPartsCount (the WAL decoder re-validates what it reads)
+		id.PartsHeader.Total = types.MaxBlockPartsCount - id.PartsHeader.Total%3
+	}
 	id.PartsHeader.Hash = genHash(t, label+".phash", id.PartsHeader.Total == 0) // PartsHeader must not be zero
 	return id
 }
